@@ -268,7 +268,37 @@ def sync_table(ctx: Ctx, rule: str) -> None:
                "" if okd else "the non-invasive defaults of sync_states changed")
 
 
+def sync_addressing(ctx: Ctx, rule: str) -> None:
+    """Whom a cleanup request addresses: the object's vm decides the 'selected vms' test, the state keys carry the object's own suffix (plus its vm for images)."""
+    fn = ctx.repo.func(SYNC)
+    ctx.touch(SYNC)
+
+    def ifexp_ok(node, test, a, b):
+        if not isinstance(node, ast.IfExp):
+            return False
+        f = norm.formula(node.test)
+        w = norm.formula(ast.parse(test, mode="eval").body)
+        if norm.equivalent(f, w):
+            return ast.unparse(node.body) == a and ast.unparse(node.orelse) == b
+        if norm.equivalent(f, norm.neg(w)):
+            return ast.unparse(node.body) == b and ast.unparse(node.orelse) == a
+        return False
+
+    vm = [s_ for s_ in ast.walk(fn.node) if isinstance(s_, ast.Assign) and ast.unparse(s_.targets[0]) == "vm_name"]
+    ok_vm = len(vm) == 1 and ifexp_ok(vm[0].value, "test_object.key == 'vms'", "test_object.suffix", "test_object.composites[0].suffix")
+    sf = sorted((s_ for s_ in ast.walk(fn.node) if isinstance(s_, (ast.Assign, ast.AugAssign)) and ast.unparse(s_.targets[0] if isinstance(s_, ast.Assign) else s_.target) == "suffixes"), key=lambda x: x.lineno)
+    ok_sf = (len(sf) == 2 and isinstance(sf[0], ast.Assign) and ast.unparse(sf[0].value) == "f'_{test_object.key}_{test_object.suffix}'"
+             and isinstance(sf[1], ast.AugAssign) and isinstance(sf[1].op, ast.Add) and ifexp_ok(sf[1].value, "test_object.key == 'images'", "f'_{vm_name}'", "''"))
+    sel = [i for i in ast.walk(fn.node) if isinstance(i, ast.If) and any(isinstance(x, ast.Assign) and ast.unparse(x) == "should_clean = True" for x in i.body)]
+    ok_sel = len(sel) == 1 and isinstance(sel[0].test, ast.Compare) and isinstance(sel[0].test.ops[0], ast.In) and ast.unparse(sel[0].test.left) == "vm_name" \
+        and ast.unparse(sel[0].test.comparators[0]).startswith("params.get('vms'") and [type(x) for x in sel[0].orelse] == [ast.Continue]
+    ok = ok_vm and ok_sf and ok_sel
+    ctx.record(rule, "PROV", SYNC, "selected test: the object's vm (own suffix for a vm, the composite's for an image) is among the run's vms, else skipped; state keys: _<type>_<suffix> plus _<vm> for images",
+               ok, {"vm_name": ok_vm, "suffixes": ok_sf, "selection": ok_sel}, "" if ok else "a cleanup request is addressed to another object or vm than the one whose state is decided on")
+
+
 def run(ctx: Ctx) -> None:
+    ctx.call(sync_addressing, "3a")
     ctx.call(reverse_guard, "1")
     ctx.call(T.t_a1, "1d/T.A1")
     ctx.call(who_may_unset, "2")
@@ -287,6 +317,8 @@ def run(ctx: Ctx) -> None:
 
 G = "cartgraph/graph.py"
 MUTANTS = [
+    ("sync-image-keys-without-vm", "cartgraph/node.py", "            suffixes += f\"_{vm_name}\" if test_object.key == \"images\" else \"\"", "            suffixes += f\"_{vm_name}\" if test_object.key != \"images\" else \"\"", "3a"),
+    ("sync-selection-by-wrong-vm", "cartgraph/node.py", "                test_object.suffix\n                if test_object.key == \"vms\"\n                else test_object.composites[0].suffix", "                test_object.suffix\n                if test_object.key != \"vms\"\n                else test_object.composites[0].suffix", "3a"),
     ("reversible-means-last-object", "cartgraph/node.py", "            if is_reversible:\n                break\n        else:\n            is_reversible = False", "            if not is_reversible:\n                break\n        else:\n            is_reversible = False", "r"),
     ("picked-node-of-wrong-worker", "cartgraph/node.py", "                        if picked_worker.id in node.params[\"name\"]:\n                            picked_node = node", "                        if picked_worker.id not in node.params[\"name\"]:\n                            picked_node = node", "wp"),
     ("picked-node-always-self", "cartgraph/node.py", "                if self.is_flat() or picked_worker.id in self.params[\"name\"]:\n                    picked_node = self", "                if not self.is_flat() or picked_worker.id in self.params[\"name\"]:\n                    picked_node = self", "wp"),
